@@ -694,10 +694,16 @@ Inductive event :=
 | EvReport (seid : N) (items : list report_item) (e : env)
 | EvTimeoutTx (peer seq : N)
 | EvTimeoutRx (peer seq : N)
-| EvReportWF (seid : N) (items : list report_item) (e : env).
+| EvReportWF (seid : N) (items : list report_item) (e : env)
     (* a report served while every write on the PFCP socket FAILS (transient send failure): sendReqTo takes the counter,
        registers the transaction and arms its timer BEFORE it writes, and only logs the error of the write - so the
        state is that of EvReport and nothing is emitted *)
+| EvRecvWF (peer seq : N) (m : msg) (e : env)
+    (* a datagram received and handled while every write fails: RxTransaction.send stores the marshalled response
+       before it writes, every handler calls sendRspTo last and only logs its error, a duplicate's re-send error skips
+       nothing but the dispatch it would have skipped anyway - the state is that of EvRecv, nothing is emitted *)
+| EvTimeoutTxWF (peer seq : N).
+    (* an expiry whose retransmission fails in the socket: the retry is counted and the timer re-armed all the same *)
 
 Definition key_eqb (a b : N * N) : bool := N.eqb (fst a) (fst b) && N.eqb (snd a) (snd b).
 
@@ -1049,6 +1055,9 @@ Definition step (w : world) (ev : event) : res (world * list out) :=
   | EvTimeoutTx peer seq => Ok (timeout_tx w peer seq)
   | EvTimeoutRx peer seq => Ok (set_rx (kdel (peer, seq) (w_rx w)) w, [])
   | EvReportWF seid items _ => write_fails (serve_report w seid items)
+  | EvRecvWF peer seq m e =>
+    write_fails (if is_request m then recv_request w peer seq m e else recv_response w peer seq m e)
+  | EvTimeoutTxWF peer seq => write_fails (Ok (timeout_tx w peer seq))
   end.
 
 (* a run stops at the first fault (the real process exits) *)
